@@ -53,17 +53,32 @@ fn mtime_secs(meta: &std::fs::Metadata) -> i64 {
 pub fn discover_local_with_meta(root: &Path) -> Result<MetaMap, Box<dyn std::error::Error>> {
     let mut out = MetaMap::new();
     for rel in discover_local_files(root)? {
-        if let Ok(meta) = std::fs::metadata(root.join(&rel)) {
-            out.insert(
-                rel,
-                FileMeta {
-                    size: meta.len(),
-                    mtime: mtime_secs(&meta),
-                },
-            );
+        match std::fs::metadata(root.join(&rel)) {
+            Ok(meta) => {
+                out.insert(
+                    rel,
+                    FileMeta {
+                        size: meta.len(),
+                        mtime: mtime_secs(&meta),
+                    },
+                );
+            }
+            // gone since the walk: genuinely absent
+            Err(e) if e.kind() == std::io::ErrorKind::NotFound => {}
+            Err(e) => return Err(format!("{}: {e}", rel.display()).into()),
         }
     }
     Ok(out)
+}
+
+/// Scan a local DESTINATION: a root that does not exist yet (first sync) is an empty
+/// tree; any other failure is an error (an unreadable destination must not be taken
+/// for an empty one, or every file is re-sent and nothing is deleted).
+pub fn discover_local_dest(root: &Path) -> Result<MetaMap, Box<dyn std::error::Error>> {
+    match std::fs::metadata(root) {
+        Err(e) if e.kind() == std::io::ErrorKind::NotFound => Ok(MetaMap::new()),
+        _ => discover_local_with_meta(root),
+    }
 }
 
 /// List a remote tree with size+mtime in one `find -printf` over SSH.
